@@ -118,3 +118,11 @@ Theorem C05_fresh_load_returns_what_the_source_holds : forall f s t id,
   | _, _ => False
   end.
 Proof. exact SysFresh.fresh_load_returns_what_the_source_holds. Qed.
+
+(* a registration is never dropped: the AddAsset message goes to insert_asset, which is `insert` on
+   the asset's node whether or not the node exists (an asset loaded again after remove / clear, or
+   whose first load raced, has its dependencies and type recorded afresh) *)
+Theorem C05_code_registrations_reach_the_graph :
+  insert_asset_wf DepsGraph_insert_asset = true /\
+  add_asset_msg_wf HotReloadingData_add_asset = true.
+Proof. exact registrations_reach_the_graph. Qed.
